@@ -428,6 +428,94 @@ fn sweep_case<G: CurveTag>(it: &SweepItem, col: &mut Collector) -> Result<(), Fa
     Ok(())
 }
 
+/// One violated item far out: a constraint at position `at` of `total` (kind 0), a first-phase
+/// gate (1), a constraint over commitment `at` of `total` commitments (2), a second-phase gate (3).
+#[derive(Clone, Copy, Debug)]
+pub struct ScaleItem {
+    pub curve: Curve,
+    pub kind: u8,
+    pub total: usize,
+    pub at: usize,
+}
+
+impl ScaleItem {
+    pub fn encode(&self) -> Vec<u8> {
+        let mut v = vec![self.curve.index() as u8, self.kind];
+        v.extend((self.total as u32).to_be_bytes());
+        v.extend((self.at as u32).to_be_bytes());
+        v
+    }
+    pub fn decode(b: &[u8]) -> Option<Self> {
+        if b.len() != 10 {
+            return None;
+        }
+        Some(ScaleItem { curve: *Curve::ALL.get(b[0] as usize)?, kind: b[1], total: u32::from_be_bytes(b[2..6].try_into().ok()?) as usize, at: u32::from_be_bytes(b[6..10].try_into().ok()?) as usize })
+    }
+}
+
+fn scale_case<G: CurveTag>(it: &ScaleItem, col: &mut Collector) -> Result<(), Failure> {
+    use crate::program::Cap;
+    let mut ops = vec![];
+    match it.kind {
+        0 => {
+            ops.push(Op::Commit { v: ScalarSpec::Small(9), blind: ScalarSpec::Rand(5) });
+            ops.push(Op::AllocMul { l: Sc::C(ScalarSpec::Small(2)), r: Sc::C(ScalarSpec::Small(3)) });
+            for q in 0..it.total {
+                let err = if q == it.at { Some(ScalarSpec::Small(3)) } else { None };
+                let lc = match q % 3 {
+                    0 => vec![(Var::O(0), Sc::C(ScalarSpec::Small(1 + (q % 5) as u64)))],
+                    1 => vec![(Var::Com(0), Sc::C(ScalarSpec::Small(1 + (q % 7) as u64)))],
+                    _ => vec![(Var::L(0), Sc::C(ScalarSpec::One)), (Var::Com(0), Sc::C(ScalarSpec::MinusOne))],
+                };
+                ops.push(Op::Constrain { lc, err, base: None });
+            }
+        }
+        1 | 3 => {
+            ops.push(Op::Commit { v: ScalarSpec::Small(9), blind: ScalarSpec::Rand(5) });
+            let mut gates = vec![];
+            if it.kind == 3 {
+                gates.push(Op::Challenge { label: 0 });
+            }
+            for i in 0..it.total {
+                gates.push(Op::AllocMul { l: Sc::C(ScalarSpec::Small(2 + i as u64)), r: Sc::C(ScalarSpec::Rand(i as u64)) });
+            }
+            gates.push(Op::Tamper { gate: if it.kind == 3 { 2 + it.at } else { it.at }, dl: ScalarSpec::Zero, dr: ScalarSpec::Zero, dout: ScalarSpec::Small(5) });
+            if it.kind == 3 {
+                // two first-phase gates, the rest in the closure
+                ops.push(Op::AllocMul { l: Sc::C(ScalarSpec::Small(4)), r: Sc::C(ScalarSpec::Small(5)) });
+                ops.push(Op::AllocMul { l: Sc::C(ScalarSpec::Small(6)), r: Sc::C(ScalarSpec::Small(7)) });
+                ops.push(Op::Closure(gates));
+            } else {
+                ops.extend(gates);
+            }
+        }
+        _ => {
+            for j in 0..it.total {
+                ops.push(Op::Commit { v: ScalarSpec::Small(j as u64), blind: ScalarSpec::Small(1 + j as u64) });
+            }
+            ops.push(Op::Constrain { lc: vec![(Var::Com(it.at), Sc::C(ScalarSpec::Small(3))), (Var::Com(0), Sc::C(ScalarSpec::One))], err: Some(ScalarSpec::One), base: None });
+        }
+    }
+    let prog = Program { curve: G::CURVE, tlabel: 0, pre: vec![], ops, owned: false, cap_p: Cap::Exact, cap_v: Cap::Exact, party_cap: 1, seed: it.at as u64, pc: 0, gens: 0 };
+    let p = run_prover::<G>(&prog, &ProveOpts::default());
+    if p.model.violations().len() != 1 {
+        return Err(Failure::new("machinery:scale", "scale program does not violate exactly one item", json!(format!("{:?}", it))));
+    }
+    let Some(proof) = p.proof.as_ref() else { return Ok(()) };
+    let v = run_verifier::<G>(&prog, &p.commitments, proof, &VerifyOpts::default());
+    if v.accepted() {
+        let what = ["linear constraint", "first-phase gate", "constraint over commitment", "second-phase gate"][it.kind as usize % 4];
+        return Err(Failure::new(
+            format!("C02:accepted:far-out-{}", ["constraint", "gate", "commitment", "phase2-gate"][it.kind as usize % 4]),
+            format!("a violated {} #{} (of {}) is accepted", what, it.at, it.total),
+            json!({"scale": format!("{:?}", it)}),
+        ));
+    }
+    col.class(["scale:constraints", "scale:gates", "scale:commitments", "scale:phase2-gates"][it.kind as usize % 4]);
+    col.nontrivial(fp_of(&(it.curve, it.kind, it.total, it.at, 77u8)));
+    Ok(())
+}
+
 fn dispatch_sweep(it: &SweepItem, col: &mut Collector) -> Result<(), Failure> {
     with_curve!(it.curve, G => sweep_case::<G>(it, col))
 }
@@ -439,6 +527,10 @@ fn dispatch(sub: &str, bytes: &[u8], col: &mut Collector) -> Result<(), Failure>
 }
 
 pub fn replay(sub: &str, bytes: &[u8], col: &mut Collector) -> Result<(), Failure> {
+    if sub == "c02/scale" {
+        let it = ScaleItem::decode(bytes).ok_or_else(|| Failure::new("machinery:replay", "bad scale item", json!(null)))?;
+        return with_curve!(it.curve, G => scale_case::<G>(&it, col));
+    }
     if sub == "c02/sweep" {
         let it = SweepItem::decode(bytes).ok_or_else(|| Failure::new("machinery:replay", "bad sweep item", json!(null)))?;
         return dispatch_sweep(&it, col);
@@ -496,6 +588,32 @@ pub fn run(tier: &str, seed: u64) -> i32 {
         let mut o = crate::runner::enumerate("c02/sweep", &items, &|i| i.encode(), &|i, col| dispatch_sweep(i, col));
         o.exhaustive = false;
         rep.extra.insert("sweep_items".into(), json!(items.len()));
+        rep.outcome.merge(o);
+    }
+    // single violations far out (beyond 2^12 gates, 2^16 constraints, 2^10 commitments)
+    if rep.outcome.found.is_empty() {
+        let mut items: Vec<ScaleItem> = vec![];
+        let curves: Vec<Curve> = if tier == "thorough" { Curve::ALL.to_vec() } else { vec![Curve::ALL[((seed + 1) % 3) as usize]] };
+        for c in curves {
+            let thorough = tier == "thorough";
+            for at in if thorough { vec![0usize, 4095, 4096, 4097, 65_535, 65_536, 65_537, 69_999] } else { vec![4096, 65_536, 69_999] } {
+                items.push(ScaleItem { curve: c, kind: 0, total: 70_000, at });
+            }
+            for at in if thorough { vec![0usize, 2047, 4095, 4096, 4199] } else { vec![4096] } {
+                items.push(ScaleItem { curve: c, kind: 1, total: 4200, at });
+            }
+            for at in if thorough { vec![1usize, 1023, 1024, 1025, 2099] } else { vec![1024, 1099] } {
+                items.push(ScaleItem { curve: c, kind: 2, total: if thorough { 2100 } else { 1100 }, at });
+            }
+            for at in if thorough { vec![0usize, 4094, 4095, 4099] } else { vec![] } {
+                items.push(ScaleItem { curve: c, kind: 3, total: 4100, at });
+            }
+            if !thorough {
+                items.push(ScaleItem { curve: c, kind: 3, total: 1100, at: 1050 });
+            }
+        }
+        let mut o = crate::runner::enumerate("c02/scale", &items, &|i| i.encode(), &|i, col| with_curve!(i.curve, G => scale_case::<G>(i, col)));
+        o.exhaustive = false;
         rep.outcome.merge(o);
     }
     for c in [
